@@ -227,3 +227,20 @@ CHECKS["C08"] = dict(
     assumptions=["the transport double obeys pause signals (stops reporting), as a real transport does; blocks already in flight cannot be recalled",
                  "only block directions that can occur on a side are generated (the limit cache is per channel)"],
 )
+
+CHECKS["C11"] = dict(
+    level="exploration",
+    rule=("C11TwoParty: two real managers (initiator, responder) joined by a loop-back network double and an emulated transport carriage, one accepted channel in Ongoing on "
+          "both sides; 2-30 PRNG pause/resume actions by either party (occasionally the responder's transport completes mid-way); after every action at quiescence both sides' "
+          "(InitiatorPaused, ResponderPaused) must equal the fold of the actions, BothPaused the conjunction, SelfPaused the own role's flag; each local action must reach the "
+          "transport once and be announced with an Update message of the right kind and pause bit; a resume by one party while the other is still paused must leave the other's "
+          "transport paused (handler returns the pause signal / explicit PauseChannel). C11Step: each of the four pause/resume events on injected records of every status x "
+          "flag setting x role: ignored, or changes exactly its own flag. distinct = observed action interleaving."),
+    parts=[
+        dict(test="TestC11TwoParty", quick=320, thorough=24000, per_shard=40),
+        dict(test="TestC11Step", quick=16, thorough=160, per_shard=4),
+    ],
+    floors=dict(any={"TestC11TwoParty.actions": 3000, "TestC11TwoParty.resume_while_other_paused": 500, "TestC11TwoParty.with_responder_completion": 50,
+                     "TestC11Step.applied": 150, "TestC11Step.ignored": 700}),
+    assumptions=["messages are delivered before the next action (quiescence between actions); delayed/reordered delivery is exercised by the end-to-end engine"],
+)
